@@ -93,6 +93,11 @@ pub mod trace {
         lock().ev.len()
     }
 
+    /// Number of logged events of the given kind and first argument by threads without a role.
+    pub fn count_loop_events(kind: i64, a: i64) -> usize {
+        lock().ev.iter().filter(|e| e[0] >= 100 && e[1] == kind && e[2] == a).count()
+    }
+
     /// Log an event that is not tied to an operation performed under the lock.
     pub fn mark(kind: i64, a: i64, b: i64) {
         if on() {
@@ -114,7 +119,7 @@ pub mod trace {
         RNG.with(|c| {
             let mut s = c.get();
             if s == 0 {
-                s = SEED.load(Ordering::SeqCst) ^ ((role() as u64 + 1) * 0x9E37_79B9_7F4A_7C15);
+                s = SEED.load(Ordering::SeqCst) ^ (role() as u64 + 1).wrapping_mul(0x9E37_79B9_7F4A_7C15);
             }
             s = s.wrapping_add(0x9E37_79B9_7F4A_7C15);
             c.set(s);
